@@ -295,6 +295,10 @@ pub struct Plan {
     /// the only handles)
     #[serde(default = "yes")]
     pub keep_main_handle: bool,
+    /// a slow server: the greeting is written this long after the connection was made, and the
+    /// verdict on the password takes as long again
+    #[serde(default)]
+    pub handshake_delay_ms: u32,
 }
 
 fn yes() -> bool {
@@ -318,6 +322,7 @@ impl Plan {
             consumer: Consumer::Drain,
             probe_request: true,
             keep_main_handle: true,
+            handshake_delay_ms: 0,
         }
     }
 
